@@ -420,6 +420,10 @@ func c10Run(c c10Case) (v vVerdict) {
 		if c.Source == "erroring" {
 			return nil
 		}
+		if vMonQuiet {
+			time.Sleep(70 * time.Millisecond)
+			return nil
+		}
 		p0 := atomic.LoadInt64(&e.mon.processed)
 		deadline := time.Now().Add(8 * time.Second)
 		for time.Now().Before(deadline) {
